@@ -22,12 +22,12 @@ pub fn def() -> CheckDef {
         },
         gen,
         run,
-        rule: "a drawn prefix history (<= 15 ops, biased to fill the mini stream / MiniFAT to whole-sector multiples: 8k mini sectors in V3, 64k in V4) followed by a drawn cycle body that returns the model to the same state - create/write/remove one or several streams below and above 4096 bytes, grow/shrink back, overwrite with equal size, build and remove_storage_all a subtree - repeated 5 times, optionally with a reopen between repetitions. Conservation oracle: the image length after repetitions 2, 3, 4 and 5 is one number (repetition 1 may grow). The model state hash after every repetition must be the same (net-zero premise; otherwise harness error). Non-trivial: the body contains >= 1 successful mutation; distinct = distinct (seam log, final image) hash.",
-        assumptions: &["the check does not demand that the file shrinks, only that it stops growing from the second repetition on"],
+        rule: "a drawn prefix history (<= 15 ops, biased to fill the mini stream / MiniFAT to whole-sector multiples: 8k mini sectors in V3, 64k in V4; every fifth case instead writes one large stream that leaves the file 0-47 sectors short of a whole number of FAT sectors' worth of sectors, so that the cycle crosses or ends on the point where the FAT is exactly full) followed by a drawn cycle body that returns the model to the same state - create/write/remove one or several streams below and above 4096 bytes, grow/shrink back, overwrite with equal size, build and remove_storage_all a subtree - repeated 5 times, optionally with a reopen between repetitions. Conservation oracle: the image length after repetitions 1, 2, 3, 4 and 5 is one number (repetition 1 may grow the file over the prefix; every repetition from the second on leaves the size unchanged). The model state hash after every repetition must be the same (net-zero premise; otherwise harness error). Non-trivial: the body contains >= 1 successful mutation; distinct = distinct (seam log, final image) hash.",
+        assumptions: &["the check does not demand that the file shrinks, only that no repetition from the second on changes its size"],
         cpu_limit_s: 300,
         fault_kinds: "none (conservation invariant over the recorded history)",
         count_subruns: false,
-        expect_probes: &["first_repetition_grew"],
+        expect_probes: &["first_repetition_grew", "repetition_1_ends_on_a_fat_sector_boundary"],
     }
 }
 
@@ -127,11 +127,30 @@ pub fn gen(seed: u64, idx: u64, _tier: Tier) -> Case {
     let version = if rng.chance(1, 2) { 3 } else { 4 };
     let mut c = Case::new("C15", "cycle", version);
     c.bufsize = *rng.pick(gen::BUFSIZES);
-    let sector: u64 = if version == 3 { 512 } else { 4096 };
     let mut nonce = 5000u32;
     // prefix
     let mut prefix: Vec<Op> = vec![];
-    match rng.below(4) {
+    let fat_boundary = idx % 5 == 2;
+    if fat_boundary {
+        // one large stream sized so that the file ends a few sectors (0..47) short of a whole
+        // number of FAT sectors' worth of sectors (128k in V3, 1024 in V4): somewhere in the
+        // cycle "the FAT is exactly full" coincides with "free sectors are available"
+        let version = if idx % 40 == 2 { 4 } else { 3 };
+        c.version = version;
+        let sector: u64 = if version == 3 { 512 } else { 4096 };
+        let cells: u64 = sector / 4;
+        let k = if version == 3 { rng.range(1, 2) } else { 1 };
+        let sectors = cells * k - rng.below(48);
+        nonce += 1;
+        prefix.push(Op::WriteWhole { path: "/big".into(), len: sectors * sector - rng.below(3), nonce });
+        if rng.chance(1, 3) {
+            nonce += 1;
+            prefix.push(Op::WriteWhole { path: "/small".into(), len: rng.range(1, 200), nonce });
+        }
+    }
+    let version = c.version;
+    let sector: u64 = if version == 3 { 512 } else { 4096 };
+    match if fat_boundary { 0 } else { rng.below(4) } {
         0 => {}
         1 => {
             // fill the mini stream to a whole number of sectors (+- a little)
@@ -230,9 +249,13 @@ pub fn run(case: &Case, known: &BTreeSet<String>) -> Outcome {
         }
         ctx.out.stats.boundary_checks += 1;
         lens.push(w.lib.disk.len());
+        let sector = if case.version == 3 { 512usize } else { 4096 };
+        if (w.lib.disk.len() / sector - 1) % (sector / 4) == 0 {
+            ctx.out.stats.probe(if r == 0 { "repetition_1_ends_on_a_fat_sector_boundary" } else { "later_repetition_ends_on_a_fat_sector_boundary" });
+        }
     }
     if !ctx.stop && ctx.out.harness_error.is_none() && lens.len() == REPS {
-        if !(lens[1] == lens[2] && lens[2] == lens[3] && lens[3] == lens[4]) {
+        if !(lens[0] == lens[1] && lens[1] == lens[2] && lens[2] == lens[3] && lens[3] == lens[4]) {
             let body_kinds: Vec<&str> = case.ops[prefix..prefix + body].iter().map(|o| o.kind()).collect();
             ctx.report(
                 "conservation.file-grows",
